@@ -669,3 +669,112 @@ Qed.
 Theorem import_export_bin_empty : forall k slm nlevels rest,
   import_bin k slm nlevels 0 (export_nodes [] ++ rest) = Ok (empty_state, rest).
 Proof. reflexivity. Qed.
+
+(** *** roots and the complete binary file body *)
+
+Definition root_ok (l : list inode) (r : Z) : Prop :=
+  (r <> 0)%Z /\ Z.abs_N r <= N.of_nat (length l) + 1.
+
+Lemma import_roots_state : forall k slm l rootids,
+  k = KBDD \/ k = KBCDD -> Forall (root_ok l) rootids ->
+  import_roots k (state_of slm l (length l)) rootids =
+  Ok (map (fun r => eref (Z.abs_N r) (r <? 0)%Z) rootids).
+Proof.
+  intros k slm l rootids Hk. induction 1 as [|r rs [Hr0 Hr] _ IH]; [reflexivity|].
+  cbn [import_roots map].
+  destruct (Z.eqb_spec r 0); [contradiction|].
+  assert (H1 : 1 <= Z.abs_N r) by lia.
+  unfold state_of at 1. cbn [st_nodes].
+  rewrite nth_error_nodes_upto by lia. cbn [bind].
+  rewrite complement_eref by assumption. cbn [bind].
+  rewrite IH. reflexivity.
+Qed.
+
+(** [.end] followed by a line break is what the exporter writes after the nodes *)
+Definition trailer : list byte := [46; 101; 110; 100; 10].
+
+Theorem import_file_export_bin : forall k vin slm nlevels l rootids,
+  k = KBDD \/ k = KBCDD ->
+  wf_dag (N.of_nat (length slm)) l -> incr slm -> Forall (fun x => x < level_max) slm ->
+  N.of_nat (length slm) < usize_limit ->
+  N.of_nat (length l) + 1 < usize_limit ->
+  Forall (root_ok l) rootids ->
+  import_file k false vin slm nlevels (N.of_nat (length (dag_of l))) rootids
+              (export_nodes (dag_of l) ++ trailer)
+  = Ok (state_of slm l (length l), map (fun r => eref (Z.abs_N r) (r <? 0)%Z) rootids).
+Proof.
+  intros. unfold import_file.
+  rewrite import_export_bin by assumption. cbn [bind].
+  change (reads_end trailer) with true. cbn [negb].
+  rewrite import_roots_state by assumption. reflexivity.
+Qed.
+
+(** *** the hypotheses are satisfiable: x0 ∧ x1, x0 ⊕ x1 and ¬x1 over three support levels *)
+
+Definition ex_dag : list inode :=
+  [ mkI 2 1 1 true;      (* id 2: x2 ? ⊤ : ⊥ *)
+    mkI 1 1 1 true;      (* id 3: x1 *)
+    mkI 0 3 1 true;      (* id 4: x0 ∧ x1 *)
+    mkI 0 3 3 true;      (* id 5: x0 ? x1 : ¬x1 *)
+    mkI 1 2 1 true ].    (* id 6: x1 ∧ x2 *)
+
+Definition childb (l : list inode) (j : nat) (v ch : N) : bool :=
+  (1 <=? ch) && (ch <? N.of_nat j + 2) &&
+  ((ch =? 1) || match nth_error l (N.to_nat (ch - 2)) with
+                | Some nd' => v <? iv nd' | None => false end).
+
+Definition wf_atb (nsupp : N) (l : list inode) (j : nat) (nd : inode) : bool :=
+  (iv nd <? nsupp) && childb l j (iv nd) (it nd) && childb l j (iv nd) (ie nd)
+  && negb ((it nd =? ie nd) && negb (ic nd)).
+
+Lemma childb_sound l j v ch : childb l j v ch = true -> child_ok l j v ch.
+Proof.
+  unfold childb, child_ok. intros H.
+  apply andb_prop in H. destruct H as [H H3].
+  apply andb_prop in H. destruct H as [H1 H2].
+  apply N.leb_le in H1. apply N.ltb_lt in H2.
+  split; [assumption|]. split; [assumption|]. intros Hne.
+  apply orb_prop in H3. destruct H3 as [H3|H3].
+  - apply N.eqb_eq in H3. contradiction.
+  - destruct (nth_error l (N.to_nat (ch - 2))) as [nd'|]; [|discriminate].
+    exists nd'. split; [reflexivity|]. apply N.ltb_lt. assumption.
+Qed.
+
+Lemma wf_atb_sound nsupp l j nd : wf_atb nsupp l j nd = true -> wf_at nsupp l j nd.
+Proof.
+  unfold wf_atb, wf_at. intros H.
+  apply andb_prop in H. destruct H as [H Hred].
+  apply andb_prop in H. destruct H as [H He].
+  apply andb_prop in H. destruct H as [Hv Ht].
+  apply N.ltb_lt in Hv. apply childb_sound in Ht. apply childb_sound in He.
+  split; [assumption|]. split; [assumption|]. split; [assumption|].
+  intros [Heq Hc]. apply negb_true_iff in Hred.
+  rewrite Heq, Hc, N.eqb_refl in Hred. discriminate.
+Qed.
+
+Example ex_dag_wf : wf_dag 3 ex_dag.
+Proof.
+  split.
+  - repeat constructor; cbn; intuition discriminate.
+  - intros j nd H. apply wf_atb_sound.
+    do 5 (destruct j as [|j]; [inversion H; subst; reflexivity|]).
+    destruct j; discriminate.
+Qed.
+
+Example ex_slm_incr : incr [1; 4; 5].
+Proof.
+  intros i j a b Ha Hb Hij.
+  do 3 (destruct i as [|i]; [do 3 (destruct j as [|j]; [try lia; inversion Ha; inversion Hb; subst; lia|]); destruct j; discriminate|]).
+  destruct i; discriminate.
+Qed.
+
+(** the exported bytes of the example (node section of a BCDD dump), and its import
+    into a manager with six levels where the support sits at levels 1, 4, 5 *)
+Example ex_dag_bytes :
+  export_nodes (dag_of ex_dag) = [0; 0; 36; 4; 36; 2; 124; 118; 4; 4; 108; 4].
+Proof. vm_compute. reflexivity. Qed.
+
+Example ex_dag_roundtrip :
+  import_file KBCDD false true [1; 4; 5] 6 6 [4; -5; 6; -1]%Z (export_nodes (dag_of ex_dag) ++ trailer)
+  = Ok (state_of [1; 4; 5] ex_dag 5, [eref 4 false; eref 5 true; eref 6 false; eref 1 true]).
+Proof. vm_compute. reflexivity. Qed.
